@@ -21,6 +21,21 @@ theorem hits_are_maximal_runs (records : List Record) (amp hon : ThrArg) (hits :
     hits.Pairwise (fun x y => x.recordI < y.recordI ∨ (x.recordI = y.recordI ∧ x.right < y.left)) :=
   findHits_intervals e
 
+/-- **`find_hits` returns on every valid input**: channels non-negative and covered by the threshold arrays, no record
+longer than its buffer.  (So the `= .ok hits` premise of the other theorems is met exactly on the valid inputs; the two
+error branches are `ValueError` for a channel without threshold and `AssertionError` for an over-long record.) -/
+theorem find_hits_total (records : List Record) (amp hon : ThrArg) (a h : List Q)
+    (hres : resolveThr records amp hon = .ok (a, h))
+    (hall : ∀ r ∈ records, 0 ≤ r.channel ∧ r.channel < a.length ∧ r.channel < h.length ∧ r.length ≤ r.data.length) :
+    ∃ hits, findHits records amp hon = .ok hits :=
+  findHits_total hres hall
+
+/-- with two numbers as thresholds the channel count is inferred, so non-negative channels and sane lengths suffice -/
+theorem find_hits_total_scalar (records : List Record) (qa qh : Q)
+    (hall : ∀ r ∈ records, 0 ≤ r.channel ∧ r.length ≤ r.data.length) :
+    ∃ hits, findHits records (.scalar qa) (.scalar qh) = .ok hits :=
+  findHits_total_scalar records qa qh hall
+
 /-- **Hit fields, all hits.**  Every returned hit lies inside its record (`left < right ≤ length`) and carries
 `time = record.time + left·dt`, `length = right − left`, the record's `dt` and `channel`, the applied threshold,
 `area = Σ samples[left:right] + (right − left)·(baseline mod 1)` and
@@ -150,6 +165,34 @@ theorem links_spec_partial (rs : List Record) (prev next : List Int) (e : record
   · intro i hi
     exact ⟨(p2 i hi).2, (n2 i hi).2⟩
 
+/-- **Linked records are consecutive fragments of one pulse (partial: the two records are sane).**
+Let `a = rs[j]`, `b = rs[i]` have non-negative fragment numbers, positive `dt` and `samples_per_record`, and come from
+the same pulse or from pulses that do not overlap (the pulse of `b`, counted from its possibly cut-away 0th fragment,
+starts after the buffer of `a` ends).  Then `previous_record[i] = j` iff `j` is the last record of `b`'s channel before
+`i` and `b` is the next fragment of `a`'s pulse (same pulse start, same `dt`, `record_i` one higher).
+Missing for the full statement: arrays with overlapping pulses / inconsistent `record_i` in one channel, where the
+code links any time-adjacent continuing record. -/
+theorem links_same_pulse_partial (rs : List Record) (prev next : List Int) (e : recordLinks rs = .ok (prev, next))
+    (i j : Nat) (a b : Record) (ha : rs[j]? = some a) (hb : rs[i]? = some b)
+    (hspr : 0 < samplesPerRecord rs) (hdt : 0 < b.dt) (hra : 0 ≤ a.recordI) (hrb : 0 ≤ b.recordI)
+    (hd : SameOrDisjoint (samplesPerRecord rs) a b) :
+    prev[i]? = some (j : Int) ↔ (LastIn rs b.channel i j ∧ NextInPulse (samplesPerRecord rs) a b) := by
+  have hi : i < rs.length := by
+    rcases Nat.lt_or_ge i rs.length with h | h
+    · exact h
+    · simp [List.getElem?_eq_none h] at hb
+  rw [((recordLinks_prev e).2 i hi).1 j]
+  have key := adjacent_iff_next_in_pulse (samplesPerRecord rs) a b hspr hdt hra hrb hd
+  constructor
+  · rintro ⟨a', b', ha', hb', hl, h1, h2⟩
+    rw [ha] at ha'; rw [hb] at hb'
+    simp only [Option.some.injEq] at ha' hb'
+    subst ha' hb'
+    exact ⟨hl, key.1 ⟨h1, h2⟩⟩
+  · rintro ⟨hl, hn⟩
+    obtain ⟨h1, h2⟩ := key.2 hn
+    exact ⟨a, b, ha, hb, hl, h1, h2⟩
+
 /-- a lone continuing fragment at time 0 -/
 def orphanWitness : List Record :=
   [{ time := 0, length := 4, dt := 1, channel := 0, recordI := 1, pulseLength := 8, area := 0, reductionLevel := 0,
@@ -173,6 +216,14 @@ theorem reduction_keeps_iff (records : List Record) (hits : List HitRef) (le re 
             ((∃ h ∈ hits, Covers records (samplesPerRecord records) prev next le re h m j) → d[j]? = r.data[j]?) ∧
             ((¬ ∃ h ∈ hits, Covers records (samplesPerRecord records) prev next le re h m j) → d[j]? = some 0) :=
   cutOutsideHits_spec hne e
+
+/-- **`cut_outside_hits` returns on every valid input**: non-negative channels and extensions, hits that point into the
+array with `left ≤ right`. -/
+theorem reduction_total (records : List Record) (hits : List HitRef) (le re : Int) (hle : 0 ≤ le) (hre : 0 ≤ re)
+    (hch : ∀ r ∈ records, 0 ≤ r.channel)
+    (hh : ∀ h ∈ hits, h.recordI < records.length ∧ h.left ≤ h.right) :
+    ∃ out, cutOutsideHits records hits le re = .ok out :=
+  cutOutsideHits_total records hits le re hle hre hch hh
 
 /-- **Single record, fully explicit.**  For an array of one record that is not a continuing fragment at time 0:
 sample `j` survives iff `j < length` and `left − le ≤ j < right + re` for some hit of that record; every other sample
@@ -356,6 +407,16 @@ example : (match recordLinks demo with
            | .ok (prev, next) => (prev, next)
            | .error _ => ([], [])) = ([-1, -1, 0], [2, -1, -1]) := by decide
 example : noOrphanAtZero demo = true := by decide
+
+/-- the pair hypothesis of `links_same_pulse_partial` holds for records 0 and 2 of `demo` (same pulse) and for a
+record of another pulse that starts later -/
+example : SameOrDisjoint 4 demo[0] demo[2] ∧ NextInPulse 4 demo[0] demo[2] ∧
+    SameOrDisjoint 4 demo[0] { demo[0] with time := 40, recordI := 2 } := by
+  refine ⟨by decide, ⟨by decide, by decide, by decide⟩, by decide⟩
+
+/-- the hypotheses of the totality theorems hold on `demo` -/
+example : (demo.all fun r => decide (0 ≤ r.channel ∧ r.length ≤ r.data.length)) = true ∧
+    ([(⟨0, 3, 4⟩ : HitRef), ⟨2, 0, 1⟩].all fun h => decide (h.recordI < demo.length ∧ h.left ≤ h.right)) = true := by decide
 
 /-- the reduction of `demo` returns, and keeps the sample before the straddling hit and the one after it -/
 example : (match cutOutsideHits demo [⟨0, 3, 4⟩, ⟨2, 0, 1⟩] 1 1 with
